@@ -161,6 +161,49 @@ type Updater struct {
 	N      int64        `json:"n,omitempty"`
 }
 
+// GenSpec describes a batch of documents constructed from parameters instead of being
+// listed: document i (First <= i < First+N) has _id = Id(i), u = i, x = (Mul*i+Add) mod Mod
+// typed by Types (""=int64; "mixed" cycles int64, float64, string by i%3), y = i mod 7,
+// and a pad string of Pad bytes.
+type GenSpec struct {
+	First int    `json:"first"`
+	N     int    `json:"n"`
+	Pad   int    `json:"pad"`
+	Mul   int    `json:"mul"`
+	Add   int    `json:"add"`
+	Mod   int    `json:"mod"`
+	Types string `json:"types,omitempty"`
+}
+
+// Docs materialises the batch.
+func (g *GenSpec) Docs(idOf func(int) string) []Doc {
+	out := make([]Doc, g.N)
+	pad := strings.Repeat("p", g.Pad)
+	mod := g.Mod
+	if mod <= 0 {
+		mod = 1
+	}
+	for k := 0; k < g.N; k++ {
+		i := g.First + k
+		xv := int64((g.Mul*i + g.Add) % mod)
+		var x interface{} = xv
+		if g.Types == "mixed" {
+			switch i % 3 {
+			case 1:
+				x = float64(xv) + 0.5
+			case 2:
+				x = fmt.Sprintf("s%04d", xv)
+			}
+		}
+		d := Doc{"_id": idOf(i), "u": int64(i), "x": x, "y": int64(i % 7)}
+		if g.Pad > 0 {
+			d["pad"] = pad
+		}
+		out[k] = d
+	}
+	return out
+}
+
 // Op is one step of an operation program.
 type Op struct {
 	Kind    string       `json:"kind"`
@@ -176,6 +219,7 @@ type Op struct {
 	Path    string       `json:"path,omitempty"`
 	Content string       `json:"content,omitempty"` // import file content when not produced by an export
 	Note    string       `json:"note,omitempty"`
+	Gen     *GenSpec     `json:"gen,omitempty"` // kind "geninsert"
 }
 
 func (o Op) String() string {
